@@ -160,7 +160,7 @@ fn main() {
                     n_dec += d;
                     n_runs += 1;
                 }
-                if cr.violations.len() > 8 {
+                if distinct_sigs(&cr.violations) > 8 || cr.violations.len() > 2000 {
                     break;
                 }
             }
@@ -173,7 +173,7 @@ fn main() {
             if c == 1 {
                 cr.sample = Some(json!({"shape": sh.cfg_name, "object_packets": n, "subsets": format!("{}..{}", lo, hi), "decodable": n_dec}));
             }
-            cr.violations.truncate(4);
+            limit(&mut cr.violations, 4);
             cr
         }));
         // ---- sampled: larger sessions, multi-packet RS/NoCode-protected FDT, threshold-biased loss
@@ -276,7 +276,7 @@ fn main() {
                 cr.shape = Some(util::fnv(&s));
             }
             cr.sample = Some(json!({"session": sh.em.json(), "deliveries": n_runs, "decodable": n_dec}));
-            cr.violations.truncate(4);
+            limit(&mut cr.violations, 4);
             cr
         }));
         gens
